@@ -113,8 +113,8 @@ def gen_weights(rng, n, kind):
         return [large() for _ in range(n)]
     if kind == 'near':
         return [near() for _ in range(n)]
-    if kind == 'large_near':
-        return [large() if rng.random() < 0.5 else near() for _ in range(n)]
+    if kind == 'large_near':        # near-integers with a coarser fraction here, so that sums with the large values stay exact
+        return [large() if rng.random() < 0.5 else float(rng.randint(1000, 5000)) + 2.0 ** -10 for _ in range(n)]
     if kind == 'one_fraction':
         w = [float(rng.randint(1, 9)) for _ in range(n)]
         w[rng.randrange(n)] = rng.choice([10 ** 6 + 0.5, 3 + 2.0 ** -20, 0.5])
@@ -239,6 +239,9 @@ def oracle_check(ctx, site, case, impl_view, edges, fl, id_kind, family, approx=
     for the non-dyadic family). Returns True when it holds."""
     edges = [(a, b, Fraction(w)) for a, b, w in edges]
     exp = oracle_graph(edges, fl, id_kind)
+    if fl['weighted'] and any(Fraction(float(abs(w))) * 2 ** 20 >= 2 ** 52 for _, _, w in edges) or \
+            any(Fraction(float(v)) != v for v in exp['entries'].values()):
+        approx = True       # some sum is not representable exactly in float64: never demand more than round-off allows
     if impl_view.get('err'):
         report(ctx, site, 'implementation raises on a valid input', case=case, expected=_js(exp), observed=impl_view.get('detail'),
                       defect=classify_error(impl_view.get('detail'), case), family=family)
